@@ -55,6 +55,25 @@ CHECKS = {
              "spec per call and at cfg_free, live heap blocks / open streams / descriptors back to their start values, ASan/UBSan clean.",
         note="Heap-level double free / use after free is the sanitizer's verdict on the enumerated histories, not TLC's. API-sequence histories "
              "(setters, section add/remove, search path) are covered by the C09 check's balance aspect."),
+    "C09": dict(
+        cat="model_checking", ref="7/C09",
+        text="Api.tla gives every setter / list / bulk-set / set-from-text / annotation / titled-add / remove call as an operation on "
+             "the abstract store. TLC explores the state graph of the store under ~57 call instances (including wrong type, index "
+             "beyond a scalar, unknown name, section-relative calls) from the initial state and from a parsed state, checking as "
+             "action properties on every transition: append keeps the old values (defaults included) as prefix, removal keeps order, "
+             "titles stay unique, bad calls fail, successful setters mark the option modified, the pointer ledger balances. Every "
+             "transition is replayed (after a shortest path to its pre-state); return value, full tree, modified mark, released "
+             "pointers and heap balance are compared.",
+        note="Bounded depth; outcomes the statement leaves open (index beyond the end of a list, indexed write into a list that still holds "
+             "pristine defaults, zero-length list set) are 'unspec' in the spec and not compared; annotations / default marker are not compared here (C10 does)."),
+    "C10": dict(
+        cat="model_checking", ref="7/C10",
+        text="Same state graph; the action property 'a failing call leaves the store (values, count, order, annotation, default and "
+             "modified markers) unchanged' is checked by TLC on every transition. Every transition whose call is refused (bulk set "
+             "with an unconvertible element at each position, by-name setter vetoed by the pre-set validation callback, wrong type, "
+             "illegal index, existing title, missing section, unconvertible set-from-text) is replayed and the driver's complete dump "
+             "of the context (values, nvalues, comment, RESET/MODIFIED bits) before and after the call must be identical.",
+        note="Option states are those reachable within the depth bound from the initial and a parsed state (pristine, set, emptied, annotated, lists of n)."),
 }
 
 PENDING = {
